@@ -73,6 +73,9 @@ def lean_ty(t, selfty):
 
 
 class Emit:
+    wanted = WANTED
+    src = SRC
+
     def __init__(self, parsed):
         self.parsed = parsed
         self.structs = {}
@@ -81,7 +84,7 @@ class Emit:
                 self.structs[TYPES[s]] = {lf(f): ty_of_text(t) for f, t in fields}
         self.keyfield = {}      # (LeanType, leanField) -> key accessor field of the element type, from entry() sites
         self.ret = {}
-        for t, fns in WANTED.items():
+        for t, fns in self.wanted.items():
             for f in fns:
                 d = self.fn(t, f)
                 self.ret[(TYPES[t], f)] = ty_of_text(d["ret"]) if d["ret"] else None
@@ -89,7 +92,7 @@ class Emit:
 
     def fn(self, t, f):
         d = self.parsed["impls"].get(t, {}).get(f)
-        if d is None: raise TranslateError("function %s::%s not found in %s" % (t, f, SRC))
+        if d is None: raise TranslateError("function %s::%s not found in %s" % (t, f, self.src))
         if d["error"]: raise TranslateError("function %s::%s is outside the supported subset: %s" % (t, f, d["error"]))
         return d
 
@@ -112,7 +115,7 @@ class Emit:
                 for y in x: walk(y, T)
             elif isinstance(x, list):
                 for y in x: walk(y, T)
-        for t, fns in WANTED.items():
+        for t, fns in self.wanted.items():
             for f in fns: walk(self.fn(t, f)["body"], TYPES[t])
         # the multimaps that are only read must have got their key from a writer
         for T, fields in self.structs.items():
